@@ -11,28 +11,28 @@ Lemma Digit_is_digit c : Digit c -> is_digit c = true.
 Proof. apply is_digit_spec. Qed.
 
 (* ---------- numbers ---------- *)
-Definition frac_cont (pre tail : str) : lout :=
-  let '(x, r2) := span is_digit tail in num_after_frac (pre ++ x) r2.
+Definition frac_cont (pre tail : str) : lx_out :=
+  let '(x, r2) := lx_span is_digit tail in lx_num_after_frac (pre ++ x) r2.
 
 Lemma num_exp_digits_app pre ds rest : Forall Digit ds ->
-  num_exp_digits pre (ds ++ rest) = num_exp_digits (pre ++ ds) rest.
+  lx_num_exp_digits pre (ds ++ rest) = lx_num_exp_digits (pre ++ ds) rest.
 Proof.
-  intros H. unfold num_exp_digits. rewrite (span_prefix _ _ _ (digits_forallb _ H)).
-  destruct (span is_digit rest) as [x r2]. now rewrite app_assoc.
+  intros H. unfold lx_num_exp_digits. rewrite (span_prefix _ _ _ (digits_forallb _ H)).
+  destruct (lx_span is_digit rest) as [x r2]. now rewrite app_assoc.
 Qed.
 
 Lemma num_int_digits_app pre ds rest : Forall Digit ds ->
-  num_int_digits pre (ds ++ rest) = num_int_digits (pre ++ ds) rest.
+  lx_num_int_digits pre (ds ++ rest) = lx_num_int_digits (pre ++ ds) rest.
 Proof.
-  intros H. unfold num_int_digits. rewrite (span_prefix _ _ _ (digits_forallb _ H)).
-  destruct (span is_digit rest) as [x r2]. now rewrite app_assoc.
+  intros H. unfold lx_num_int_digits. rewrite (span_prefix _ _ _ (digits_forallb _ H)).
+  destruct (lx_span is_digit rest) as [x r2]. now rewrite app_assoc.
 Qed.
 
 Lemma num_exp_ep pre sg c ds rest : SignOpt sg -> Digit c -> Forall Digit ds ->
-  num_exp pre (sg ++ c :: ds ++ rest) = num_exp_digits (pre ++ sg ++ c :: ds) rest.
+  lx_num_exp pre (sg ++ c :: ds ++ rest) = lx_num_exp_digits (pre ++ sg ++ c :: ds) rest.
 Proof.
   intros Hsg Hc Hds. pose proof (Digit_is_digit _ Hc) as Hc'.
-  destruct Hsg as [->|[->| ->]]; cbn [app]; unfold num_exp.
+  destruct Hsg as [->|[->| ->]]; cbn [app]; unfold lx_num_exp.
   - rewrite Hc', num_exp_digits_app by exact Hds. now rewrite <- app_assoc.
   - change (is_digit 43) with false. change ((43 =? 43) || (43 =? 45)) with true. cbv iota.
     rewrite Hc', num_exp_digits_app by exact Hds. now rewrite <- app_assoc.
@@ -41,47 +41,47 @@ Proof.
 Qed.
 
 Lemma exp_ind_facts e : ExponentIndicator e ->
-  is_exp_ind e = true /\ (e =? 46) = false /\ is_digit e = false.
-Proof. unfold ExponentIndicator, is_exp_ind, is_digit. lia. Qed.
+  lx_is_exp_ind e = true /\ (e =? 46) = false /\ is_digit e = false.
+Proof. unfold ExponentIndicator, lx_is_exp_ind, is_digit. lia. Qed.
 
 Lemma after_frac_ep pre ep rest : ExponentPart ep ->
-  num_after_frac pre (ep ++ rest) = num_exp_digits (pre ++ ep) rest.
+  lx_num_after_frac pre (ep ++ rest) = lx_num_exp_digits (pre ++ ep) rest.
 Proof.
   intros [e sg c ds He Hsg Hc Hds]. destruct (exp_ind_facts _ He) as [H1 [H2 H3]].
-  cbn [app]. unfold num_after_frac. rewrite H1. rewrite <- app_assoc. cbn [app].
+  cbn [app]. unfold lx_num_after_frac. rewrite H1. rewrite <- app_assoc. cbn [app].
   rewrite num_exp_ep by assumption. f_equal. rewrite <- !app_assoc. reflexivity.
 Qed.
 
 Lemma after_int_ep z pre ep rest : ExponentPart ep ->
-  num_after_int z pre (ep ++ rest) = num_exp_digits (pre ++ ep) rest.
+  lx_num_after_int z pre (ep ++ rest) = lx_num_exp_digits (pre ++ ep) rest.
 Proof.
   intros [e sg c ds He Hsg Hc Hds]. destruct (exp_ind_facts _ He) as [H1 [H2 H3]].
-  cbn [app]. unfold num_after_int. rewrite H2, H1. rewrite <- app_assoc. cbn [app].
+  cbn [app]. unfold lx_num_after_int. rewrite H2, H1. rewrite <- app_assoc. cbn [app].
   rewrite num_exp_ep by assumption. f_equal. rewrite <- !app_assoc. reflexivity.
 Qed.
 
 Lemma after_int_fp z pre fp tail : FractionalPart fp ->
-  num_after_int z pre (fp ++ tail) = frac_cont (pre ++ fp) tail.
+  lx_num_after_int z pre (fp ++ tail) = frac_cont (pre ++ fp) tail.
 Proof.
-  intros [c ds Hc Hds]. cbn [app]. unfold num_after_int. change (46 =? 46) with true. cbv iota.
-  unfold num_frac. rewrite (Digit_is_digit _ Hc).
+  intros [c ds Hc Hds]. cbn [app]. unfold lx_num_after_int. change (46 =? 46) with true. cbv iota.
+  unfold lx_num_frac. rewrite (Digit_is_digit _ Hc).
   rewrite (span_prefix _ _ _ (digits_forallb _ Hds)). unfold frac_cont.
-  destruct (span is_digit tail) as [x r2]. f_equal. rewrite <- !app_assoc. reflexivity.
+  destruct (lx_span is_digit tail) as [x r2]. f_equal. rewrite <- !app_assoc. reflexivity.
 Qed.
 
 Lemma frac_cont_ep pre ep rest : ExponentPart ep ->
-  frac_cont pre (ep ++ rest) = num_exp_digits (pre ++ ep) rest.
+  frac_cont pre (ep ++ rest) = lx_num_exp_digits (pre ++ ep) rest.
 Proof.
   intros Hep. unfold frac_cont.
-  assert (E : span is_digit (ep ++ rest) = ([], ep ++ rest)).
+  assert (E : lx_span is_digit (ep ++ rest) = ([], ep ++ rest)).
   { destruct Hep as [e sg c ds He Hsg Hc Hds]. destruct (exp_ind_facts _ He) as [H1 [H2 H3]].
-    cbn [app span]. now rewrite H3. }
+    cbn [app lx_span]. now rewrite H3. }
   rewrite E, app_nil_r. now apply after_frac_ep.
 Qed.
 
 (* the integer part at the head of the text *)
-Definition int_cont (z : bool) (ip tail : str) : lout :=
-  if z then num_after_int true ip tail else num_int_digits ip tail.
+Definition int_cont (z : bool) (ip tail : str) : lx_out :=
+  if z then lx_num_after_int true ip tail else lx_num_int_digits ip tail.
 
 Lemma int_head ip : IntegerPart ip ->
   exists z, forall tail, lex_head (ip ++ tail) = Some (int_cont z ip tail).
@@ -93,13 +93,13 @@ Proof.
     destruct Hc' as [Hc1 Hc2].
     destruct Hsg as [->| ->]; cbn [app lex_head].
     + rewrite lex_one_nonzero by exact Hc. rewrite num_int_digits_app by exact Hds. reflexivity.
-    + rewrite lex_one_minus. unfold num_minus. replace (c =? 48) with false by lia. rewrite Hc2.
+    + rewrite lex_one_minus. unfold lx_num_minus. replace (c =? 48) with false by lia. rewrite Hc2.
       rewrite num_int_digits_app by exact Hds. reflexivity.
 Qed.
 
-Lemma int_cont_nodigit z ip tail : ~ starts Digit tail -> int_cont z ip tail = num_after_int z ip tail.
+Lemma int_cont_nodigit z ip tail : ~ starts Digit tail -> int_cont z ip tail = lx_num_after_int z ip tail.
 Proof.
-  intros H. destruct z; [reflexivity|]. unfold int_cont, num_int_digits.
+  intros H. destruct z; [reflexivity|]. unfold int_cont, lx_num_int_digits.
   rewrite (not_starts_span _ _ _ is_digit_spec H), app_nil_r. reflexivity.
 Qed.
 
@@ -108,36 +108,36 @@ Proof. destruct z; [apply num_after_int_ext|apply num_int_digits_ext]. Qed.
 
 Lemma frac_cont_ext pre tail : extends pre tail (frac_cont pre tail).
 Proof.
-  unfold frac_cont. destruct (span is_digit tail) as [x r2] eqn:E.
+  unfold frac_cont. destruct (lx_span is_digit tail) as [x r2] eqn:E.
   eapply ext_step; [eapply span_app; eauto|apply num_after_frac_ext].
 Qed.
 
 Lemma not_follow c : ~ NumberFollow c ->
-  (c =? 46) = false /\ is_exp_ind c = false /\ is_digit c = false /\ is_name_start c = false.
+  (c =? 46) = false /\ lx_is_exp_ind c = false /\ is_digit c = false /\ is_name_start c = false.
 Proof.
-  unfold NumberFollow, Digit, NameStart, is_exp_ind, is_digit, is_name_start, is_alpha. lia.
+  unfold NumberFollow, Digit, NameStart, lx_is_exp_ind, is_digit, is_name_start, is_alpha. lia.
 Qed.
 
 Lemma after_int_exact z ip tail : ~ starts NumberFollow tail ->
-  num_after_int z ip tail = (LTok Int, ip, tail).
+  lx_num_after_int z ip tail = (LxTok TkInt, ip, tail).
 Proof.
-  intros H. unfold num_after_int. destruct tail as [|c r]; [reflexivity|].
+  intros H. unfold lx_num_after_int. destruct tail as [|c r]; [reflexivity|].
   cbn [starts] in H. destruct (not_follow _ H) as [H1 [H2 [H3 H4]]].
   rewrite H1, H2, H3, H4, andb_false_r. reflexivity.
 Qed.
 
 Lemma after_frac_exact pre tail : ~ starts NumberFollow tail ->
-  num_after_frac pre tail = (LTok Float, pre, tail).
+  lx_num_after_frac pre tail = (LxTok TkFloat, pre, tail).
 Proof.
-  intros H. unfold num_after_frac. destruct tail as [|c r]; [reflexivity|].
+  intros H. unfold lx_num_after_frac. destruct tail as [|c r]; [reflexivity|].
   cbn [starts] in H. destruct (not_follow _ H) as [H1 [H2 [H3 H4]]].
   rewrite H1, H2, H4. reflexivity.
 Qed.
 
 Lemma after_exp_exact pre tail : ~ starts NumberFollow tail ->
-  num_after_exp pre tail = (LTok Float, pre, tail).
+  lx_num_after_exp pre tail = (LxTok TkFloat, pre, tail).
 Proof.
-  intros H. unfold num_after_exp. destruct tail as [|c r]; [reflexivity|].
+  intros H. unfold lx_num_after_exp. destruct tail as [|c r]; [reflexivity|].
   cbn [starts] in H. destruct (not_follow _ H) as [H1 [H2 [H3 H4]]].
   rewrite H1, H4. reflexivity.
 Qed.
@@ -146,7 +146,7 @@ Lemma follow_nodigit tail : ~ starts NumberFollow tail -> ~ starts Digit tail.
 Proof. destruct tail; cbn [starts]; unfold NumberFollow; tauto. Qed.
 
 Lemma frac_cont_exact pre tail : ~ starts NumberFollow tail ->
-  frac_cont pre tail = (LTok Float, pre, tail).
+  frac_cont pre tail = (LxTok TkFloat, pre, tail).
 Proof.
   intros H. unfold frac_cont.
   rewrite (not_starts_span _ _ _ is_digit_spec (follow_nodigit _ H)), app_nil_r.
@@ -154,9 +154,9 @@ Proof.
 Qed.
 
 Lemma exp_digits_exact pre tail : ~ starts NumberFollow tail ->
-  num_exp_digits pre tail = (LTok Float, pre, tail).
+  lx_num_exp_digits pre tail = (LxTok TkFloat, pre, tail).
 Proof.
-  intros H. unfold num_exp_digits.
+  intros H. unfold lx_num_exp_digits.
   rewrite (not_starts_span _ _ _ is_digit_spec (follow_nodigit _ H)), app_nil_r.
   now apply after_exp_exact.
 Qed.
@@ -169,7 +169,7 @@ Proof. intros [e sg c ds He _ _ _]. cbn [app starts]. unfold Digit, ExponentIndi
 (* a FloatValue at the head of the text *)
 Lemma float_head d : FloatValue d ->
   forall tail, lex_head (d ++ tail) = Some (frac_cont d tail) \/
-               lex_head (d ++ tail) = Some (num_exp_digits d tail).
+               lex_head (d ++ tail) = Some (lx_num_exp_digits d tail).
 Proof.
   intros [ip fp ep Hip Hfp Hep|ip fp Hip Hfp|ip ep Hip Hep] tail;
     destruct (int_head _ Hip) as [z Hz].
@@ -186,10 +186,10 @@ Proof.
 Qed.
 
 (* ---------- quoted strings ---------- *)
-Lemma scons_false c d rest : scons c false (d, rest, false) = (c :: d, rest, false).
+Lemma scons_false c d rest : lx_scons c false (d, rest, false) = (c :: d, rest, false).
 Proof. reflexivity. Qed.
 
-Lemma hex_not_quote c : HexDigit c -> (c =? 34) = false /\ is_hex c = true.
+Lemma hex_not_quote c : HexDigit c -> (c =? 34) = false /\ lx_is_hex c = true.
 Proof. intros H. split; [unfold HexDigit, Digit in H; lia|now apply is_hex_spec]. Qed.
 
 Lemma scan_chunk chunk s d rest :
@@ -201,32 +201,32 @@ Section WithSC.
 Variable SC : N -> Prop.
 
 Lemma scan_one_chunk chunk s : StringCharacter SC chunk ->
-  forall d rest, scan_str SStr s = (d, rest, false) ->
-  scan_str SStr (chunk ++ s) = (chunk ++ d, rest, false).
+  forall d rest, lx_scan_str LxSStr s = (d, rest, false) ->
+  lx_scan_str LxSStr (chunk ++ s) = (chunk ++ d, rest, false).
 Proof.
   intros [c Hsc H1 H2 H3|a b c e Ha Hb Hc He Hns|c Hc] d rest E; cbn [app].
-  - cbn [scan_str]. replace (c =? 34) with false by lia. replace (c =? 92) with false by lia.
-    replace (is_line_term c) with false
-      by (symmetry; destruct (is_line_term c) eqn:X; [apply is_line_term_spec in X; tauto|reflexivity]).
+  - cbn [lx_scan_str]. replace (c =? 34) with false by lia. replace (c =? 92) with false by lia.
+    replace (lx_is_line_term c) with false
+      by (symmetry; destruct (lx_is_line_term c) eqn:X; [apply is_line_term_spec in X; tauto|reflexivity]).
     rewrite E. reflexivity.
   - destruct (hex_not_quote _ Ha) as [qa ha]. destruct (hex_not_quote _ Hb) as [qb hb].
     destruct (hex_not_quote _ Hc) as [qc hc]. destruct (hex_not_quote _ He) as [qe he].
-    cbn [scan_str]. change (92 =? 34) with false. change (is_line_term 92) with false.
-    change (92 =? 92) with true. change (is_escaped_char 117) with false. change (117 =? 117) with true.
+    cbn [lx_scan_str]. change (92 =? 34) with false. change (lx_is_line_term 92) with false.
+    change (92 =? 92) with true. change (lx_is_escaped_char 117) with false. change (117 =? 117) with true.
     cbv iota. rewrite qa, ha, qb, hb, qc, hc, qe, he. cbn [negb]. cbv iota zeta.
-    replace (is_surrogate _) with false.
-    2:{ symmetry. destruct (is_surrogate _) eqn:X; [|reflexivity]. exfalso. apply Hns.
+    replace (lx_is_surrogate _) with false.
+    2:{ symmetry. destruct (lx_is_surrogate _) eqn:X; [|reflexivity]. exfalso. apply Hns.
         apply is_surrogate_spec in X. unfold hex4_value.
         rewrite <- !hexval_spec by assumption. unfold Surrogate in *. lia. }
     rewrite E. reflexivity.
-  - cbn [scan_str]. change (92 =? 34) with false. change (is_line_term 92) with false.
+  - cbn [lx_scan_str]. change (92 =? 34) with false. change (lx_is_line_term 92) with false.
     change (92 =? 92) with true. cbv iota.
-    replace (is_escaped_char c) with true by (symmetry; now apply is_escaped_char_spec).
+    replace (lx_is_escaped_char c) with true by (symmetry; now apply is_escaped_char_spec).
     rewrite E. reflexivity.
 Qed.
 
 Lemma scan_chunks chunks rest : Forall (StringCharacter SC) chunks ->
-  scan_str SStr (concat chunks ++ 34 :: rest) = (concat chunks ++ [34], rest, false).
+  lx_scan_str LxSStr (concat chunks ++ 34 :: rest) = (concat chunks ++ [34], rest, false).
 Proof.
   induction 1 as [|chunk chunks Hc Hcs IH]; cbn [concat app].
   - reflexivity.
@@ -234,27 +234,27 @@ Proof.
 Qed.
 
 Lemma chunk_first chunk : StringCharacter SC chunk ->
-  exists c t, chunk = c :: t /\ c <> 34 /\ is_line_term c = false.
+  exists c t, chunk = c :: t /\ c <> 34 /\ lx_is_line_term c = false.
 Proof.
   intros [c Hsc H1 H2 H3|a b c e _ _ _ _ _|c _].
-  - exists c, []. repeat split; auto. destruct (is_line_term c) eqn:X; [apply is_line_term_spec in X; tauto|reflexivity].
+  - exists c, []. repeat split; auto. destruct (lx_is_line_term c) eqn:X; [apply is_line_term_spec in X; tauto|reflexivity].
   - eexists _, _. repeat split; [lia|reflexivity].
   - eexists _, _. repeat split; [lia|reflexivity].
 Qed.
 
-(* from the second character on, lex_string is scan_str from State::StringLiteral, provided the first
+(* from the second character on, lex_string is lx_scan_str from State::StringLiteral, provided the first
    character is neither a quote nor (the quirk) a line terminator *)
-Lemma lex_string_scan c r1 : c <> 34 -> is_line_term c = false ->
+Lemma lex_string_scan c r1 : c <> 34 -> lx_is_line_term c = false ->
   lex_string (c :: r1) =
-  let '(d, rest, e) := scan_str SStr (c :: r1) in (if e then LErr else LTok StringValue, 34 :: d, rest).
+  let '(d, rest, e) := lx_scan_str LxSStr (c :: r1) in (if e then LxErr else LxTok TkStringValue, 34 :: d, rest).
 Proof.
-  intros H1 H2. unfold lex_string. replace (c =? 34) with false by lia. cbn [scan_str].
+  intros H1 H2. unfold lex_string. replace (c =? 34) with false by lia. cbn [lx_scan_str].
   replace (c =? 34) with false by lia. rewrite H2.
-  destruct (c =? 92); destruct (scan_str _ r1) as [[d rest] e]; reflexivity.
+  destruct (c =? 92); destruct (lx_scan_str _ r1) as [[d rest] e]; reflexivity.
 Qed.
 
 Lemma quoted_head d tail : QuotedString SC d -> d <> [34; 34] ->
-  lex_head (d ++ tail) = Some (LTok StringValue, d, tail).
+  lex_head (d ++ tail) = Some (LxTok TkStringValue, d, tail).
 Proof.
   intros [|chunks Hne Hcs] Hd; [congruence|]. cbn [app lex_head]. rewrite lex_one_quote.
   destruct chunks as [|chunk chunks]; [congruence|].
@@ -265,9 +265,9 @@ Proof.
 Qed.
 
 (* ---------- block strings ---------- *)
-Lemma scan_block_bs s : ~ starts_triple s -> scan_block true s = scan_block false s.
+Lemma scan_block_bs s : ~ starts_triple s -> lx_scan_block true s = lx_scan_block false s.
 Proof.
-  intros H. destruct s as [|c r]; [reflexivity|]. cbn [scan_block].
+  intros H. destruct s as [|c r]; [reflexivity|]. cbn [lx_scan_block].
   destruct (N.eqb_spec c 34) as [->|]; [|reflexivity].
   destruct r as [|q1 r1]; [reflexivity|]. destruct (N.eqb_spec q1 34) as [->|]; [|reflexivity].
   destruct r1 as [|q2 r2]; [reflexivity|]. destruct (N.eqb_spec q2 34) as [->|]; [|reflexivity].
@@ -277,15 +277,15 @@ Qed.
 Lemma BlockTail_nonempty t : BlockTail SC t -> t <> [].
 Proof. intros [| |]; discriminate. Qed.
 
-Lemma block_tail_scan t : BlockTail SC t -> forall rest, scan_block false (t ++ rest) = (t, rest, true).
+Lemma block_tail_scan t : BlockTail SC t -> forall rest, lx_scan_block false (t ++ rest) = (t, rest, true).
 Proof.
   induction 1 as [|t Ht IH|c t Hsc H3 H4 Ht IH]; intros rest.
   - reflexivity.
-  - cbn [app scan_block]. change (92 =? 34) with false. change (92 =? 92) with true.
+  - cbn [app lx_scan_block]. change (92 =? 34) with false. change (92 =? 92) with true.
     change (34 =? 34) with true. cbv iota. rewrite IH. reflexivity.
   - cbn [app]. specialize (IH rest).
     destruct (N.eqb_spec c 92) as [->|Hc92].
-    + cbn [scan_block]. change (92 =? 34) with false. change (92 =? 92) with true. cbv iota.
+    + cbn [lx_scan_block]. change (92 =? 34) with false. change (92 =? 92) with true. cbv iota.
       rewrite scan_block_bs, IH; [reflexivity|].
       intros [r Hr]. apply H4. pose proof (BlockTail_nonempty _ Ht).
       destruct t as [|a [|b [|c' t']]]; cbn [app] in Hr; try congruence.
@@ -302,7 +302,7 @@ Proof.
     + destruct (N.eqb_spec c 34) as [->|Hc34].
       * (* a quote that does not start a closing triple *)
         pose proof (BlockTail_nonempty _ Ht) as Hne.
-        destruct t as [|q1 t1]; [congruence|]. cbn [app scan_block] in *.
+        destruct t as [|q1 t1]; [congruence|]. cbn [app lx_scan_block] in *.
         change (34 =? 34) with true. cbv iota.
         destruct (N.eqb_spec q1 34) as [->|Hq1].
         -- destruct t1 as [|q2 t2].
@@ -311,14 +311,14 @@ Proof.
            { exfalso. apply H3. eexists. reflexivity. }
            change (34 =? 34) with true in IH. cbv iota in IH.
            replace (q2 =? 34) with false in IH by lia.
-           destruct (scan_block false (q2 :: t2 ++ rest)) as [[d0 rest0] t0].
-           cbn [bcons] in IH. injection IH as -> -> ->. reflexivity.
+           destruct (lx_scan_block false (q2 :: t2 ++ rest)) as [[d0 rest0] t0].
+           cbn [lx_bcons] in IH. injection IH as -> -> ->. reflexivity.
         -- rewrite IH. reflexivity.
-      * cbn [scan_block]. replace (c =? 34) with false by lia. replace (c =? 92) with false by lia.
+      * cbn [lx_scan_block]. replace (c =? 34) with false by lia. replace (c =? 92) with false by lia.
         rewrite IH. reflexivity.
 Qed.
 
-Lemma block_head d tail : BlockString SC d -> lex_head (d ++ tail) = Some (LTok StringValue, d, tail).
+Lemma block_head d tail : BlockString SC d -> lex_head (d ++ tail) = Some (LxTok TkStringValue, d, tail).
 Proof.
   intros [t Ht]. cbn [app lex_head]. rewrite lex_one_quote. unfold lex_string.
   change (34 =? 34) with true. cbv iota. rewrite (block_tail_scan _ Ht). reflexivity.
